@@ -292,6 +292,80 @@ func runC05(env *Env) {
 		}
 		in.Close()
 	}
+	// a token of the fork that ends elsewhere because an interrupting boundary event takes it out of a branch task:
+	// the join must not go on waiting for it (both orders: the other branch arrives before / after the interruption)
+	for _, eventFirst := range []bool{true, false} {
+		if rep.Saturated() {
+			break
+		}
+		cs := fmt.Sprintf("inclusive fork into {H with an interrupting boundary event leading to an end event, T}, both activated; interruption before the other branch arrives: %v", eventFirst)
+		env.Current(cs)
+		p := &Prog{}
+		p.Node("start", "start")
+		p.Node("incl", "IF")
+		p.Flow("start", "IF", "")
+		p.Node("task", "H")
+		p.Node("task", "T")
+		p.Node("incl", "IJ")
+		p.Flow("IF", "H", "c0")
+		p.Flow("IF", "T", "c1")
+		p.Flow("H", "IJ", "")
+		p.Flow("T", "IJ", "")
+		p.Node("task", "Z")
+		p.Node("end", "end")
+		p.Flow("IJ", "Z", "")
+		p.Flow("Z", "end", "")
+		b := p.Node("boundary", "B0")
+		b.Attrs = `attachedToRef="H" cancelActivity="true"`
+		b.Inner = `<bpmn:signalEventDefinition id="bd0" signalRef="s0"/>`
+		p.Node("end", "endX")
+		p.Flow("B0", "endX", "")
+		defs, err := ParseDefs(p.XML(`<bpmn:signal id="s0" name="s0"/>`))
+		must(err)
+		in, err := StartInst(defs, InstOpt{Vars: map[string]any{"c0": true, "c1": true}})
+		must(err)
+		rep.Evaluations++
+		rep.Nontrivial++
+		rep.Count("branch_token_withdrawn_by_boundary_event")
+		fail := func(msg string) { rep.Violate("C05-join-late", cs, msg+"; log: "+logString(in.Log())) }
+		ok := in.WaitUntil(tmoStep, func(l []Ev) bool {
+			return countEv(l, "task", "H") >= 1 && countEv(l, "task", "T") >= 1 && countEv(l, "listening", "B0") >= 1
+		})
+		if !ok {
+			fail("H and T were not both requested with the boundary event listening")
+			in.Close()
+			continue
+		}
+		interrupt := func() {
+			in.Signal("s0")
+			in.WaitUntil(tmoStep, func(l []Ev) bool { return countEv(l, "visit", "endX") >= 1 })
+		}
+		if eventFirst {
+			interrupt()
+			in.Answer("T", tmoStep)
+		} else {
+			in.Answer("T", tmoStep)
+			in.WaitUntil(tmoStep, func(l []Ev) bool { return countEv(l, "visit", "IJ") >= 1 })
+			time.Sleep(5 * time.Millisecond)
+			if z := countEv(in.Log(), "task", "Z"); z != 0 {
+				fail(fmt.Sprintf("the join released %d tokens while the token in H can still arrive", z))
+			}
+			interrupt()
+		}
+		if !in.WaitUntil(tmoStep, func(l []Ev) bool { return countEv(l, "task", "Z") >= 1 }) {
+			fail("every token of the fork has arrived or ended elsewhere, the join did not release")
+			in.Close()
+			continue
+		}
+		in.Answer("Z", tmoStep)
+		if !in.WaitCease(tmoStep) {
+			fail("all tasks answered, the instance did not complete")
+		}
+		if z := countEv(in.Log(), "task", "Z"); z != 1 {
+			rep.Violate("C05-join-once", cs, fmt.Sprintf("task after the join requested %d times; log: %s", z, logString(in.Log())))
+		}
+		in.Close()
+	}
 	env.WriteCases(rep, "", "Corr.C05corr", "list nat * nat * list nat * nat * list nat * list nat * list nat", items, "c05_mismatches")
 	env.WriteReport(rep)
 }
